@@ -4,12 +4,15 @@ import Mathlib.Analysis.SpecialFunctions.Pow.Real
 import Mathlib.Analysis.SpecialFunctions.Trigonometric.Basic
 import Mathlib.Data.List.GetD
 import Mathlib.Algebra.BigOperators.Group.List.Basic
+import Mathlib.Analysis.SpecialFunctions.ExpDeriv
+import Mathlib.LinearAlgebra.Matrix.PosDef
+import Mathlib.LinearAlgebra.Matrix.Hadamard
 /-!
   Lemmas.C16 — helper definitions and lemmas for the C16 (covariance kernel) theorems: values of float literals on
   `R`, the distance folds of `Hand/Kernel.lean` as plain real sums, predicates on kernel trees (validity of the
   parameters, leaf families), `setParam`.  No property theorems here.
 -/
-open Real Hand.Kernel
+open Real Hand.Kernel Matrix
 
 namespace C16
 
@@ -278,7 +281,91 @@ theorem zipWith_map_map {β γ : Type} (op : γ → γ → γ) (f g : β → γ)
   | nil => rfl
   | cons x xs ih => simp only [List.map_cons, List.zipWith_cons_cons, ih]
 
+theorem getD_map' {β γ : Type} (f : β → γ) (l : List β) (i : Nat) (d : γ) (h : i < l.length) :
+    (l.map f).getD i d = f (l[i]) := by
+  rw [List.getD_eq_getElem _ _ (by simpa using h), List.getElem_map]
+
+theorem ofIdx_diag (i j : Nat) (h : Pos.ofIdx i j = .diag) : i = j := by
+  unfold Pos.ofIdx at h
+  split at h
+  · cases h
+  · split at h
+    · assumption
+    · cases h
+
 theorem enumL_length {β : Type} (X : List β) : (enumL X).length = X.length := by
   unfold enumL; simp
+
+theorem enumL_getElem {β : Type} (X : List β) (i : Nat) (h : i < X.length) :
+    (enumL X)[i]'(by rw [enumL_length]; exact h) = (i, X[i]) := by
+  simp [enumL, List.getElem_zip, List.getElem_range]
+
+-- ---- gradients (C16B) -------------------------------------------------------------------------------------------------
+
+/-- leaves with an exact closed-form gradient -/
+def gradLeaf : K R → Bool
+  | .const _ => true
+  | .rbf _ => true
+  | .ess _ _ => true
+  | .rq _ _ => true
+  | _ => false
+
+theorem gradLeaf_covGradLeaf (k : K R) (h : GoodLeaves gradLeaf k) : GoodLeaves covGradLeaf k := by
+  induction k with
+  | add a b iha ihb => exact ⟨iha h.1, ihb h.2⟩
+  | mul a b iha ihb => exact ⟨iha h.1, ihb h.2⟩
+  | seard ls => simp [GoodLeaves, gradLeaf] at h
+  | matern nu l => simp [GoodLeaves, gradLeaf] at h
+  | white s => simp [GoodLeaves, gradLeaf] at h
+  | _ => rfl
+
+/-- `t ↦ S / (eᵗ)²` has derivative `-2 S / (eᵗ)²` -/
+theorem hasDerivAt_div_exp_sq (S t : ℝ) :
+    HasDerivAt (fun t : ℝ => S / (Real.exp t) ^ 2) (-2 * (S / (Real.exp t) ^ 2)) t := by
+  have h1 : HasDerivAt (fun t : ℝ => S * Real.exp (-2 * t)) (S * (Real.exp (-2 * t) * (-2))) t := by
+    have := ((hasDerivAt_id t).const_mul (-2 : ℝ)).exp
+    simpa using this.const_mul S
+  have hfun : (fun t : ℝ => S / (Real.exp t) ^ 2) = fun t => S * Real.exp (-2 * t) := by
+    funext u
+    rw [← Real.exp_nat_mul, div_eq_mul_inv, ← Real.exp_neg]
+    congr 2; push_cast; ring
+  rw [hfun]
+  refine h1.congr_deriv ?_
+  have : (Real.exp t) ^ 2 = Real.exp (2 * t) := by rw [← Real.exp_nat_mul]; push_cast; rfl
+  rw [this, div_eq_mul_inv, ← Real.exp_neg]
+  have : -(2 * t) = -2 * t := by ring
+  rw [this]; ring
+
+/-- the RQ distance fold with the scale `√(2 s² a)` is `S / (2 a s²)` -/
+theorem rq_e2norm (s a : R) (ha : 0 ≤ a.val) (x y : List R) :
+    (e2norm x y (RealLike.sqrt ((2.0 : R) * s * s * a))).val = sqSum x y / (2 * a.val * s.val ^ 2) := by
+  have hD : 0 ≤ 2 * s.val * s.val * a.val := by
+    have : 0 ≤ s.val * s.val := mul_self_nonneg _
+    nlinarith [mul_nonneg this ha]
+  rw [e2norm_val]
+  simp only [R.sqrt_val, R.mul_val, lit2]
+  rw [Real.sq_sqrt hD]
+  congr 1; ring
+
+-- ---- covariance matrices (C16C) ------------------------------------------------------------------------------------
+
+/-- `covariance(X, X)` as a real matrix -/
+noncomputable def covMat (k : K R) (X : List (List R)) : Matrix (Fin X.length) (Fin X.length) ℝ :=
+  fun i j => (cov k (X.get i) (X.get j)).val
+
+/-- the hypothesis: every leaf of the five stationary families has a PSD matrix on `X`
+    (nothing is assumed about Constant and White leaves, nor about the combinators) -/
+def LeafPSD (X : List (List R)) : K R → Prop
+  | .const _ => True
+  | .white _ => True
+  | .add a b => LeafPSD X a ∧ LeafPSD X b
+  | .mul a b => LeafPSD X a ∧ LeafPSD X b
+  | k => (covMat k X).PosSemidef
+
+theorem covMat_add (a b : K R) (X : List (List R)) : covMat (.add a b) X = covMat a X + covMat b X := by
+  ext i j; simp only [covMat, cov, R.add_val, Matrix.add_apply]
+
+theorem covMat_mul (a b : K R) (X : List (List R)) : covMat (.mul a b) X = covMat a X ⊙ covMat b X := by
+  ext i j; simp only [covMat, cov, R.mul_val, Matrix.hadamard_apply]
 
 end C16
